@@ -178,6 +178,43 @@ def local_class(V):
     race(V, build_s3, [lambda ns, d=ins[i]: dict(ns['Local'](**d)), lambda ns, d=ins[j]: dict(ns['Local'](**d))], 'local-class')
 
 
+S4 = HEAD + '''
+class Base@@(Schema):
+    x: 'Later@@' = Field(ge=1)
+    z: 'Other@@' = Field(ge=1)
+
+
+class Sub@@(Base@@):
+    extra: int = 0
+
+
+class Later@@(int, utype.Rule):
+    le = 100
+
+
+class Other@@(int, utype.Rule):
+    le = 100
+'''
+
+
+def build_s4():
+    mod, n = load(S4)
+    return {'Base': getattr(mod, 'Base%d' % n), 'Sub': getattr(mod, 'Sub%d' % n), '__mod__': mod}
+
+
+@ob('first-parse/base-and-subclass', marks=['preempted'], budget=(240, 900), per_path=(30, 60),
+    bounds="a base class with two constrained string annotations (x: 'Later' = Field(ge=1), z: 'Other' = Field(ge=1)) and a subclass "
+           '(own parser and lock, shared field and reference objects); thread 0 makes the first parse of the base, thread 1 of the '
+           'subclass; every schedule with at most 1 preemption (2 thorough): both calls return what they return alone AND afterwards '
+           'both classes still enforce the field constraints (x=0 is rejected)')
+def base_and_subclass(V):
+    good = {'x': 5, 'z': '7'}
+    race(V, build_s4, [lambda ns: dict(ns['Base'](**good)), lambda ns: dict(ns['Sub'](**good))], 'base-and-subclass',
+         post=(lambda ns: [outcome(lambda: dict(ns['Base'](x=0, z=5)))[0], outcome(lambda: dict(ns['Sub'](x=5, z=0)))[0],
+                           outcome(lambda: dict(ns['Sub'](x=101, z=5)))[0]],
+               ('ok', ['err', 'err', 'err'])))
+
+
 ITEMS_WATCHED = sched.code_objects(getattr(BaseParser, '_resolve_forward_refs', None), BaseParser.resolve_forward_refs,
                                    getattr(Rule, '_parse_seq_args', None))
 
